@@ -227,12 +227,13 @@ func (r *Router) ListActiveServices() ServiceDescriptionMap {
 
 				path := strings.Join(service.options.PathPrefixes, ",")
 				target := strings.Join(active.Targets().Names(), ",")
+				tlsEnabled, _ := service.tlsSettings()
 
 				result[name] = ServiceDescription{
 					Host:   host,
 					Path:   path,
 					Target: target,
-					TLS:    service.options.TLSEnabled,
+					TLS:    tlsEnabled,
 					State:  service.pauseController.GetState().String(),
 				}
 			}
@@ -305,7 +306,7 @@ func (r *Router) installService(s *Service) error {
 	defer r.saveStateSnapshot()
 
 	err := r.withWriteLock(func() error {
-		conflict := r.services.CheckAvailability(s.name, s.options)
+		conflict := r.services.CheckAvailability(s.name, s.currentOptions())
 		verifEvent("install", s, conflict == nil)
 		if conflict != nil {
 			slog.Error("Host settings conflict with another service", "service", conflict.name)
